@@ -34,6 +34,39 @@ def main():
         print(f"REPRODUCED: create_impl(solver=DMRG, noise_types={nm.noise_types}) returned "
               f"{type(impl).__name__} instead of refusing")
         return 1
+    if "_extract_omega_delta_phi[bases=" in ob:
+        from emu_base.pulser_adapter import _extract_omega_delta_phi
+        import itertools
+        bases = ob.split("[bases=")[1].split("]")[0].split("+")
+        bases = [b for b in bases if b]
+
+        class Fake:
+            def __init__(self, sig):
+                self.sig = sig
+                self.max_duration = 4
+
+            def to_nested_dict(self, all_local=True, samples_type="tensor"):
+                return {"Local": self.sig}
+        # every combination of {all-zero, non-zero} amplitude / detuning per basis
+        for pattern in itertools.product([0.0, 1.5], repeat=2 * max(len(bases), 1)):
+            sig = {}
+            for k, b in enumerate(bases):
+                a, d = pattern[2 * k], pattern[2 * k + 1]
+                sig[b] = {q: {"amp": torch.full((4,), a, dtype=torch.float64),
+                              "det": torch.full((4,), d, dtype=torch.float64),
+                              "phase": torch.zeros(4, dtype=torch.float64)} for q in ("q0", "q1")}
+            try:
+                _extract_omega_delta_phi(Fake(sig), ("q0", "q1"), [0.0, 2.0, 4.0])
+            except ValueError:
+                continue
+            except Exception as e:
+                print(f"  bases {bases}, (amp,det) levels {pattern}: {type(e).__name__}: {e}")
+                continue
+            print(f"REPRODUCED: samples spanning the bases {bases} with (amplitude, detuning) levels {pattern} "
+                  "were accepted and drive data were returned (the other basis' drive is silently dropped)")
+            return 1
+        print(f"NOT-REPRODUCED: bases {bases} are refused for every zero/non-zero amplitude-detuning pattern")
+        return 0
     if "SVBackend" in ob:
         from emu_sv import SVConfig, SVBackend
         from emu_base.pulser_adapter import HamiltonianType
